@@ -259,6 +259,9 @@ class Client(object):
                 logger.info('Disconnected from broker (in publish).')
                 if self.reconnect:
                     self.tryconnect()
+                    # run() may be reading on this connection (publish from a
+                    # callback): the new connection needs the subscriptions too
+                    self._subscribe()
                 else:
                     raise
 
